@@ -128,9 +128,11 @@ SIGS = [b'\\x04\\x00\\x00\\x00\\x00\\x00\\x00\\x00\\xff\\xff\\xff\\xff\\x00\\x00
         b'   1V1.00RECORD 8192' + b'Default Storage Set'.ljust(60), b'0001V1.00RECORD08192' + b'x' * 60,
         b'\\x00' * 8 + b'\\x5c\\x00\\x00\\x00' + b'   1V1.00RECORD 8192' + b'Default Storage Set'.ljust(60),
         b'~Version\\n VERS. 2.0 : CWLS\\n WRAP. NO :\\n', b'# c\\n\\n~V\\nVERS. 1.2: x\\n', b'~V\\n VERS. 3.0 : x\\n',
+        b'~V\\nVERS.   2.00 : CWLS log ASCII Standard\\nWRAP. NO:\\n', b'~VERSION\\n VERS. 1.20: x\\n', b'~V\\nVERS. 2.0.1 : x\\n', b'~V\\nVERS. 2.05:\\n',
         b'=LIS VERIFICATION by PETROLOG rev 1234', b'UTIM\\nUTIM A\\n1 2\\n', b'\\x00\\x3e\\x00\\x00\\x80\\x00' + b'FILE  .001' + b' ' * 46,
         b'\\x00' * 8 + b'\\x4a\\x00\\x00\\x00' + b'\\x00\\x3e\\x00\\x00\\x80\\x00' + b'FILE  .001' + b' ' * 46,
         bytes([0xC3, 0xF0, 0xF1]) + bytes([0x40]) * 77, b'',
+        b'UTIM Unix Time sec\\nDATE Date ddmmyy\\nTIME Time hhmmss\\n' + b''.join(b'C%03d Channel number %03d with a long description m\\n' % (i, i) for i in range(120)) + b'UTIM DATE TIME ' + b' '.join(b'C%03d' % i for i in range(120)) + b'\\n1165665017 09Dec06 11-50-17 ' + b' '.join(b'1.5' for i in range(120)) + b'\\n',
         # witnesses of the repaired defects (SEGY card number, LIS indexer exceptions through _lis)
         bytes([0xC3, 0xC1, 0xC1]) + bytes([0x40]) * 3197, bytes.fromhex('0005000080'), bytes.fromhex('000c000040000200420000ff'),
         bytes.fromhex('000d00004000040142ff090441'),
@@ -209,10 +211,15 @@ def register(reg):
     reg.add(Contract(BF, '_rp66v2', {'fobj': FOBJ}, returns=Str, modifies=['fobj.pos'], trusted=True,
                      ensures=['result == "" or result == "RP66V2"', 'implies(result != "", len(%s) >= 128 and %s[4] == 86)' % (D, D)],
                      note=ASSUMED[2], crosscheck='assumed', native_gen=GEN_FILE), verify=False)
-    reg.add(Contract(BF, '_dat', {'fobj': FOBJ}, returns=Str, modifies=['fobj.pos'], trusted=True,
-                     ensures=['result == "" or result == "DAT"',
+    # _dat is VERIFIED against an assumed contract of DAT_parser.can_parse_file stated as an uninterpreted predicate of WHICH
+    # bytes of the file it is given: the answer is the parser's verdict on the whole file, decoded as ASCII
+    reg.add(Contract('src/TotalDepth/DAT/DAT_parser.py', 'can_parse_file', {'file_object': Untracked}, returns=Bool, trusted=True,
+                     ensures=['result == text_pred("dat", file_object)'],
+                     note='DAT_parser.can_parse_file(text): a function of the text alone (uninterpreted), raises nothing (C14)'), verify=False)
+    reg.add(Contract(BF, '_dat', {'fobj': FOBJ}, returns=Str, modifies=['fobj.pos'],
+                     ensures=['result == ("DAT" if (forall(0, len(%s), lambda k: %s[k] < 128) and file_pred("dat", 0, len(%s))) else "")' % (D, D, D),
                               'forall_n(lambda k: implies(0 <= k and k < len(%s) and %s[k] >= 128, result == ""), trigger=lambda k: %s[k])' % (D, D, D)],
-                     note=ASSUMED[3], crosscheck='assumed', native_gen=GEN_FILE), verify=False)
+                     canaries=['result == ""', 'result == "DAT"'], native_gen=GEN_FILE))
     reg.add(Contract(BF, '_segy', {'fobj': FOBJ}, returns=Str, modifies=['fobj.pos'], trusted=True,
                      ensures=['result == "" or result == "SEGY"', 'implies(result != "", len(%s) >= 3200)' % D],
                      note=ASSUMED[4], crosscheck='assumed', native_gen=GEN_FILE), verify=False)
